@@ -1069,17 +1069,20 @@ package types
 //@     invariant forall k string :: seen(k) ==> (dst[k] == nil <==> src[k] == nil) && (src[k] != nil ==> fresh(dst[k]))
 
 //@ func deriveDeepCopy_14
-//@   except frame[S|Str|ce4060d18/ret1] : undischarged on the reference tree (engine limit or missing callee contract), not claimed
 //@   nopanic[C14,C20]
 //@   requires dst != nil && dst != src
+// the destination is the empty map its callers have just made: with a pre-populated destination the generated
+// code re-uses (and overwrites) the slices the destination already holds, which `assigns dst.*` does not cover
+//@   requires forall k string :: !has(dst, k)
 //@   assigns dst.*
 //@   ensures[C14] forall k string :: has(src, k) ==> has(dst, k)
 //@   ensures[C14] forall k string :: !has(src, k) ==> (has(dst, k) <==> old(has(dst, k)))
 //@?   ensures[C14] forall k string :: has(src, k) ==> (dst[k] == nil <==> src[k] == nil) && (src[k] != nil ==> fresh(dst[k])) && len(dst[k]) == len(src[k])   // undischarged on the reference tree: not claimed
 //@   loop 1
-//@?     invariant frame()   // undischarged on the reference tree: not claimed
+//@     invariant frame()
 //@     invariant forall k string :: seen(k) ==> has(src, k) && has(dst, k)
 //@     invariant forall k string :: !seen(k) ==> (has(dst, k) <==> old(has(dst, k)))
+//@     invariant forall k string :: !seen(k) ==> !has(dst, k)
 //@?     invariant forall k string :: seen(k) ==> (dst[k] == nil <==> src[k] == nil) && (src[k] != nil ==> fresh(dst[k])) && len(dst[k]) == len(src[k])   // undischarged on the reference tree: not claimed
 
 //@ func deriveDeepCopy_15
